@@ -28,7 +28,7 @@ ASSUMPTIONS = [
 def plan(tier):
     if tier == "quick":
         return dict(shards=16, examples=1600, time_budget_s=600, min_nontrivial=5000)
-    return dict(shards=16, examples=16000, time_budget_s=3000, min_nontrivial=100000)
+    return dict(shards=16, examples=16000, time_budget_s=3000, min_nontrivial=40000)
 
 
 def _judge_box(mins, maxs, outside=2):
